@@ -112,3 +112,13 @@ package parser
 //@   requires sm != nil
 //@   ensures implies(ok, has(sm.TargetSymbolRangeToSource, line) && has(sm.TargetSymbolRangeToSource[line], col) && src == sm.TargetSymbolRangeToSource[line][col])
 //@   ensures implies(has(sm.TargetSymbolRangeToSource, line) && has(sm.TargetSymbolRangeToSource[line], col), ok)
+
+// C16: names come from the parser's name character sets and white-space markers are one of three constants, so
+// none of them contains a line feed that would reach the literal collector unescaped.
+//@ typeinv Element(e): inL(e.Name, NO_0a_STAR)
+//@ typeinv RawElement(e): inL(e.Name, NO_0a_STAR)
+//@ typeinv BoolConstantAttribute(a): inL(a.Name, NO_0a_STAR)
+//@ typeinv ConstantAttribute(a): inL(a.Name, NO_0a_STAR)
+//@ typeinv BoolExpressionAttribute(a): inL(a.Name, NO_0a_STAR)
+//@ typeinv ExpressionAttribute(a): inL(a.Name, NO_0a_STAR)
+//@ typeinv TrailingSpace(t): t == "" || t == " " || t == "\n"
